@@ -1,3 +1,12 @@
 import LhasaV.Props.C09
 open LhasaV.Props.C09
 #print axioms wrap_le_asked
+#print axioms lhnew_reach_inv
+#print axioms lhnew_no_fault
+#print axioms lhnew_params_good
+#print axioms lhnew_max_read_ok
+#print axioms lzs_no_fault
+#print axioms lz5_no_fault
+#print axioms null_no_fault
+#print axioms pm2_no_fault
+#print axioms pm1_no_fault
